@@ -23,7 +23,7 @@ THREAD_PREFIX = {"retry": "RetryExecutor", "poll": "PollExecutor", "throttle": "
 
 def programs(case):
     base = dict(case["base"])
-    if case.get("base_name"):
+    if case.get("base_name") is not None:
         base["name"] = case["base_name"]
     before = {"base": base, "layers": case["before"], "methods": True}
     args = case.get("args", [])
@@ -64,15 +64,15 @@ def observe(prog):
 
 
 def expected_threads(case):
-    name = case.get("base_name") or "default"
+    name = case.get("base_name") if case.get("base_name") is not None else "default"
     out = []
-    if case["base"]["kind"] == "pool" and name != "default":
+    if case["base"]["kind"] == "pool" and case.get("base_name") is not None:
         out.append("ThreadPoolExecutor-%s_" % name)
     elif case["base"]["kind"] == "pool":
         out.append("ThreadPoolExecutor-")
     chain = list(case["before"]) + ([{"kind": "flat_map"}] if case.get("flat") else []) + list(case["after"])
     for l in chain:
-        if l.get("name"):
+        if l.get("name") is not None:
             name = l["name"]
         if l["kind"] in THREAD_PREFIX:
             out.append("%s-%s" % (THREAD_PREFIX[l["kind"]], name))
@@ -110,6 +110,14 @@ def evaluate(case):
     if norm_state(o1["state"]) != norm_state(o2["state"]):
         nested = isinstance(o1["state"], dict) and o1["state"].get("vtype") == "Future"
         bad("outcome-differs" + (":nested-future" if nested else ""), bind=o1["state"], submit=o2["state"])
+    # absolute part: whatever quacks like a future is flattened (both forms would agree on refusing it)
+    last = (case["callable"].get("script") or [[None]])[-1]
+    plain_below = all(l["kind"] in ("retry", "throttle", "timeout", "cos") for l in case["before"])  # (nothing re-wraps the value)
+    if case.get("flat") and plain_below and last[0] == "fut" and last[1] in ("done", "duck"):
+        for form, o in (("bind", o1), ("submit", o2)):
+            st_ = o["state"] if isinstance(o["state"], dict) else {}
+            if st_.get("exc") and st_["exc"][1] == "TypeError":
+                bad("future-returned-by-fn-not-flattened:%s-form" % form, state=st_, returned=last)
     if norm_state(o1["state2"]) != norm_state(o2["state2"]):
         bad("intermediate-bound-callable-differs", bind=o1["state2"], submit=o2["state2"], also_call=case.get("also_call"))
     if o1["counts"] != o2["counts"]:
@@ -151,7 +159,7 @@ def case_strategy():
     from hypothesis import strategies as st
 
     def layer():
-        nm = st.one_of(st.none(), st.none(), st.sampled_from(["x", "y", "zed"]))
+        nm = st.one_of(st.none(), st.none(), st.sampled_from(["x", "y", "zed", "", 0]))  # ("" and 0: legal, falsy names)
         return st.one_of(
             st.builds(lambda n: {"kind": "map", "fn": [["app", "m"]], "err": None, "name": n}, nm),
             st.builds(lambda n: {"kind": "map", "fn": None, "err": [["app", "h"]], "name": n}, nm),
@@ -170,11 +178,11 @@ def case_strategy():
         flat = draw(st.integers(0, 3)) == 0
         kind = draw(st.sampled_from(["fn", "fn", "partial", "obj", "bound"]))  # bound: a callable already bound to another executor
         if flat:
-            script = draw(st.sampled_from([[["fut", "done"]], [["fut", "err", "E2"]], [["raise", "E0"], ["fut", "done"]]]))
+            script = draw(st.sampled_from([[["fut", "done"]], [["fut", "err", "E2"]], [["raise", "E0"], ["fut", "done"]], [["fut", "duck"]]]))
         else:
             script = draw(st.sampled_from([[["echo"]], [["echo"]], [["raise", "E0"], ["echo"]], [["raise", "E0"], ["raise", "E0"], ["echo"]], [["raise", "E2"]], [["tag"]]]))
         base = draw(st.sampled_from([{"kind": "sync"}, {"kind": "sync"}, {"kind": "pool", "workers": 1}, {"kind": "pool", "workers": 2}]))
-        return {"base": base, "base_name": draw(st.sampled_from([None, "bee", "b2"])), "before": layers[:cut], "after": layers[cut:], "flat": flat,
+        return {"base": base, "base_name": draw(st.sampled_from([None, "bee", "b2", "", 0])), "before": layers[:cut], "after": layers[cut:], "flat": flat,
                 "callable": {"kind": kind, "script": script},
                 "args": draw(st.lists(st.one_of(st.integers(-3, 3), st.text(max_size=3)), max_size=3)),
                 "kwargs": draw(st.dictionaries(st.sampled_from(["a", "b", "kw"]), st.integers(0, 5), max_size=2)),
